@@ -58,6 +58,12 @@ pub fn run_obs(op: &str, step: &Value, regs: &Regs, ctx: &mut Ctx, keys: &crate:
             e.walk(hide, &visitor);
             Value::Array(out.into_inner())
         }
+        "obs_tree_format" => {
+            let e = reg(regs, a(0))?;
+            let hide = a(1).as_bool().ok_or("hide")?;
+            let text = if var % 2 == 0 { e.tree_format(hide) } else { bc_envelope::with_format_context!(|c| e.tree_format_opt(hide, Some(c))) };
+            json!({"hide": hide, "lines": text.split('\n').collect::<Vec<_>>()})
+        }
         "obs_digests" => {
             let e = reg(regs, a(0))?;
             let k = a(1).as_u64().ok_or("k")? as usize;
@@ -261,6 +267,42 @@ pub fn run_obs(op: &str, step: &Value, regs: &Regs, ctx: &mut Ctx, keys: &crate:
             };
             json!({"types": ["set", tys], "has": has, "get": res_digest(e.get_type())})
         }
+        "obs_container" => {
+            use bc_envelope::Attachments;
+            let e = reg(regs, a(0))?;
+            match Attachments::try_from_envelope(e) {
+                Err(er) => json!(["err", err_kind(&er)]),
+                Ok(mut c) => {
+                    // what the envelope query returns, the container must hold under its digest
+                    let list = e.attachments().map_err(|x| x.to_string())?;
+                    let mut ds: Vec<String> = vec![];
+                    for x in &list {
+                        let d = x.digest().into_owned();
+                        match c.get(&d) {
+                            Some(y) if y.is_identical_to(x) => {}
+                            _ => return Err("container does not hold an attachment of the envelope under its digest".into()),
+                        }
+                        ds.push(dhex(x));
+                    }
+                    // re-adding the container to the bare subject reproduces the attachment assertions
+                    let again = c.add_to_envelope(e.subject());
+                    let back: std::collections::HashSet<String> = again.attachments().map_err(|x| x.to_string())?.iter().map(dhex).collect();
+                    if back != ds.iter().cloned().collect() {
+                        return Err("add_to_envelope does not reproduce the attachments".into());
+                    }
+                    for x in &list {
+                        if c.remove(&x.digest().into_owned()).is_none() {
+                            return Err("remove of a held attachment returned None".into());
+                        }
+                    }
+                    if !c.is_empty() {
+                        return Err("container holds more than the envelope's attachments".into());
+                    }
+                    ds.sort();
+                    json!(["ok", ["set", ds]])
+                }
+            }
+        }
         "obs_attachments" => {
             let e = reg(regs, a(0))?;
             let v = a(1).as_str().filter(|x| *x != "~none~");
@@ -455,6 +497,36 @@ fn flatten_walk(t: &Value, ctx: &mut Ctx, out: &mut Vec<Value>) -> Result<(), St
     Ok(())
 }
 
+/// Expected tree_format lines from a walk term: (level, digest, label, kind).
+fn flatten_lines(t: &Value, ctx: &mut Ctx, out: &mut Vec<(u64, [u8; 32], String, Value)>) -> Result<(), String> {
+    match tag_of(t) {
+        "visit" => {
+            let d = ctx.digest(&t[1]).map_err(|e| e.0)?;
+            out.push((t[2].as_u64().unwrap_or(0), d, t[7].as_str().unwrap_or("").to_string(), t[6].clone()));
+            for k in t[5].as_array().ok_or("kids")? {
+                flatten_lines(k, ctx, out)?;
+            }
+        }
+        "seq" => {
+            for k in t[1].as_array().ok_or("seq")? {
+                flatten_lines(k, ctx, out)?;
+            }
+        }
+        "sorted" => {
+            let mut items: Vec<([u8; 32], &Value)> = vec![];
+            for it in t[1].as_array().ok_or("sorted")? {
+                items.push((ctx.digest(&it[0]).map_err(|e| e.0)?, &it[1]));
+            }
+            items.sort_by(|a, b| a.0.cmp(&b.0));
+            for (_, w) in items {
+                flatten_lines(w, ctx, out)?;
+            }
+        }
+        other => return Err(format!("walk term {}", other)),
+    }
+    Ok(())
+}
+
 fn flatten_image(t: &Value, ctx: &mut Ctx, out: &mut Vec<u8>) -> Result<(), String> {
     match tag_of(t) {
         "img" => {
@@ -509,6 +581,70 @@ pub fn compare_obs(op: &str, want: &Value, got: &Value, ctx: &mut Ctx, natural_o
             let w = Value::Array(flat);
             if &w != got {
                 return Err(format!("walk differs: specification {} library {}", w, got));
+            }
+            Ok(())
+        }
+        "obs_tree_format" => {
+            let mut exp = vec![];
+            flatten_lines(want, ctx, &mut exp)?;
+            let hide = got["hide"].as_bool().unwrap_or(false);
+            let lines = got["lines"].as_array().cloned().unwrap_or_default();
+            if lines.len() != exp.len() {
+                return Err(format!("tree_format has {} lines, the walk visits {} elements", lines.len(), exp.len()));
+            }
+            for (i, (l, (level, d, label, kind))) in lines.iter().zip(exp.iter()).enumerate() {
+                let line = l.as_str().unwrap_or("");
+                let indent = line.len() - line.trim_start_matches(' ').len();
+                if indent as u64 != level * 4 {
+                    return Err(format!("line {}: indentation {} for level {}: {:?}", i + 1, indent, level, line));
+                }
+                let mut rest = line.trim_start_matches(' ');
+                if !hide {
+                    let id = hx(&d[..4]);
+                    match rest.strip_prefix(&id) {
+                        Some(r) => rest = r.trim_start_matches(' '),
+                        None => return Err(format!("line {}: short id {} expected: {:?}", i + 1, id, line)),
+                    }
+                }
+                if !label.is_empty() {
+                    match rest.strip_prefix(label.as_str()) {
+                        Some(r) if r.starts_with(' ') => rest = r.trim_start_matches(' '),
+                        _ => return Err(format!("line {}: edge label {:?} expected: {:?}", i + 1, label, line)),
+                    }
+                }
+                match tag_of(kind) {
+                    "word" => {
+                        if rest != kind[1].as_str().unwrap_or("") {
+                            return Err(format!("line {}: {:?} expected, got {:?}", i + 1, kind[1], rest));
+                        }
+                    }
+                    "kv" => {
+                        if !(rest.starts_with('\'') && rest.ends_with('\'') && rest.len() >= 3) {
+                            return Err(format!("line {}: a quoted known value expected, got {:?}", i + 1, rest));
+                        }
+                        // unnamed known values print their number; a label word must not appear
+                        if ["NODE", "WRAPPED", "ASSERTION", "ELIDED", "ENCRYPTED", "COMPRESSED"].contains(&rest) {
+                            return Err(format!("line {}: known value printed as {:?}", i + 1, rest));
+                        }
+                    }
+                    "leaf" => {
+                        let atom = &kind[1];
+                        let want_summary = if tag_of(atom) == "v" { ctx.atom(atom[1].as_str().unwrap_or("")).and_then(|p| p.summary(40)) } else if tag_of(atom) == "str" { Some(format!("\"{}\"", atom[1].as_str().unwrap_or(""))) } else { None };
+                        match want_summary {
+                            Some(s) => {
+                                if rest != s {
+                                    return Err(format!("line {}: leaf summary {:?} expected, got {:?}", i + 1, s, rest));
+                                }
+                            }
+                            None => {
+                                if rest.is_empty() || ["NODE", "WRAPPED", "ASSERTION", "ELIDED", "ENCRYPTED", "COMPRESSED"].contains(&rest) {
+                                    return Err(format!("line {}: a leaf summary expected, got {:?}", i + 1, rest));
+                                }
+                            }
+                        }
+                    }
+                    _ => return Err("kind".into()),
+                }
             }
             Ok(())
         }
